@@ -1,6 +1,7 @@
 /-
   Driver for the run-loop model on established sessions (C12).  Requests:
-    step <server> <srt> <authH> <authed> <chans> <seen> <seqIn> <seqOut> <ptype> <payloadhex>
+    step <server> <srt> <authH> <authed> <chans> <seen> <seqIn> <seqOut> <ptype> <payloadhex> <inKex>
+        (inKex = 1: our KEXINIT of a re-exchange is out, the peer's has not been processed yet)
         → <active> <err> <seqIn'> <seqOut'> <sent: type:seqno:arg,…>
     handled <server> <srt> <authH>       → the type numbers < 256 that have a handler in that situation
   booleans 0/1; authH none|std|only|gss; lists comma-separated or `-`.
@@ -9,20 +10,21 @@ import PV.Model.RunLoopIO
 import PV.Generated.C12
 open PV PV.RunLoop
 
-def established (server srt : Bool) (a : AuthH) (authed : Bool) (chans seen : List Nat) (seqIn seqOut : Nat) : St :=
+def established (server srt : Bool) (a : AuthH) (authed : Bool) (chans seen : List Nat) (seqIn seqOut : Nat)
+    (inKex : Bool := false) : St :=
   { server, srt, advertiseStrict := true, serverSigAlgs := true, agreedStrict := true,
-    initialKexDone := true, clearToSend := true, authH := a, authenticated := authed,
-    chans, seen, seqIn, seqOut }
+    initialKexDone := true, clearToSend := !inKex, inKex := inKex, localKexInit := inKex, authH := a,
+    authenticated := authed, chans, seen, seqIn, seqOut }
 
 def stepLine (line : String) : String :=
   match words line with
-  | ["step", sv, srt, ah, au, ch, sn, si, so, pt, pl] =>
+  | ["step", sv, srt, ah, au, ch, sn, si, so, pt, pl, ik] =>
     match parseBool sv, parseBool srt, parseAuthH ah, parseBool au, parseNatList ch, parseNatList sn,
-          si.toNat?, so.toNat?, pt.toNat?, ofHex? pl with
-    | some sv, some srt, some ah, some au, some ch, some sn, some si, some so, some pt, some pl =>
-      let s := step Generated.C12.tables (established sv srt ah au ch sn si so) (.recv pt pl default)
+          si.toNat?, so.toNat?, pt.toNat?, ofHex? pl, parseBool ik with
+    | some sv, some srt, some ah, some au, some ch, some sn, some si, some so, some pt, some pl, some ik =>
+      let s := step Generated.C12.tables (established sv srt ah au ch sn si so ik) (.recv pt pl default)
       s!"{showBool s.active} {showErr s.err} {s.seqIn} {s.seqOut} {showSent s.tx}"
-    | _, _, _, _, _, _, _, _, _, _ => "bad-op"
+    | _, _, _, _, _, _, _, _, _, _, _ => "bad-op"
   | ["handled", sv, srt, ah] =>
     match parseBool sv, parseBool srt, parseAuthH ah with
     | some sv, some srt, some ah =>
